@@ -267,6 +267,11 @@ func (p *ParagraphReader) Next() (*Paragraph, error) {
 		lastKey = strings.TrimSpace(els[0])
 		value := strings.TrimSpace(els[1])
 
+		if _, found := paragraph.Values[lastKey]; found {
+			/* A field name may only show up once per paragraph. */
+			return nil, fmt.Errorf("Bad line: duplicate field '%s'", lastKey)
+		}
+
 		paragraph.Order = append(paragraph.Order, lastKey)
 		paragraph.Values[lastKey] = value
 	}
